@@ -10,6 +10,8 @@ linear forms (top first), v[i] their integer values (z3 Int in [0,p)); the dict 
    pre      : z3 Bool - operands for which the reference defines the result ("undefined if ...")"""
 import z3
 
+from field import Lin
+
 P = 2**64 - 2**32 + 1
 T32 = 2**32
 
@@ -222,8 +224,25 @@ def stack_instrs():
     return I
 
 
+def ext2_instrs():
+    """quadratic extension F_p[x]/(x^2 - x + 2): elements (e0, e1) = e0 + e1*x, e1 above e0 on the stack"""
+    I = {}
+
+    def inv_relation(ctx, final, s):
+        # final[0] = a1', final[1] = a0'; s[0] = a1, s[1] = a0:  (a0 + a1 x)(a0' + a1' x) = 1
+        a1, a0, b1, b0 = s[0], s[1], final[0].l, final[1].l
+        c0 = ctx.mul(a0, b0) - ctx.mul(a1, b1).scale(2)
+        c1 = ctx.mul(a0, b1) + ctx.mul(a1, b0) + ctx.mul(a1, b1)
+        return [("result * operand = 1 in the quadratic extension (constant part)", ctx.eq(c0, Lin({}, 1))),
+                ("result * operand = 1 in the quadratic extension (x part)", ctx.eq(c1, Lin({}, 0)))]
+
+    I["ext2inv"] = lambda c, s, v: dict(out=[("any",), ("any",)], consumed=2, relation=inv_relation, advice=True, lazy=True, fail=z3.And(v[0] == 0, v[1] == 0))
+    return I
+
+
 def all_instrs():
     d = {}
+    d.update(ext2_instrs())
     d.update(field_instrs())
     d.update(u32_instrs())
     d.update(stack_instrs())
